@@ -290,7 +290,7 @@ CHECKS = {
                    "fail, and after qb_ipcc_disconnect no file is left below /dev/shm; every K of 3 fixed client scripts x 2 transports is enumerated, plus 12 prefix lengths of the handshake response",
         level_note="crash points are libc-call boundaries of the dying process (27 interposed functions) plus SIGKILL between client calls; two real processes, so the interleaving of survivor and victim is the kernel's "
                    "(failures are confirmed by repetition); wall-clock bounds carry a 3 s slack; the empty per-connection directory that the shm client leaves after a server death is not counted (the statement speaks of files)",
-        stages=[rnd("death", "c03", 6000, 150000, essential=["A_died_during_handshake", "A_died_connected_idle", "A_died_with_requests_queued", "A_died_mid_request", "A_died_in_disconnect", "A_completed", "A_partial_send",
+        stages=[rnd("death", "c03", 6000, 150000, essential=["A_died_during_handshake", "A_died_connected_idle", "A_died_with_requests_queued", "A_died_mid_request", "A_died_in_disconnect", "A_completed", "A_partial_send", "A_killed_inside_server_callback", "A_closed_asked_for_rerun",
                                                                "B_died_before_ready", "B_died_during_handshake", "B_died_while_client_waited_forever", "B_died_while_client_waited_finite", "B_killed_between_calls",
                                                                "B_survived", "B_later_call_checked", "B_shm_cleanup_checked", "shm", "socket"])],
         assumptions=["the dead server has been reaped before the client's disconnect (the client's kill(pid, 0) probe sees a zombie as alive)",
